@@ -204,6 +204,9 @@ func (tree *ParserT) parseExpression(exec, incLogicalOps bool) error {
 			if err != nil {
 				return err
 			}
+			if !branch.subExpClosed {
+				return raiseError(tree.expression, nil, tree.charPos, "missing closing parenthesis ')'")
+			}
 
 			if exec {
 				dt, err := branch.executeExpr()
@@ -225,6 +228,7 @@ func (tree *ParserT) parseExpression(exec, incLogicalOps bool) error {
 			switch {
 			case tree.subExp:
 				// end sub expression
+				tree.subExpClosed = true
 				return nil
 			default:
 				raiseError(tree.expression, nil, tree.charPos, errMessage[symbols.SubExpressionEnd])
@@ -486,6 +490,9 @@ func (tree *ParserT) parseSubExpression(exec bool) (any, error) {
 	err := branch.parseExpression(exec, true)
 	if err != nil {
 		return nil, err
+	}
+	if !branch.subExpClosed {
+		return nil, raiseError(tree.expression, nil, tree.charPos, "missing closing parenthesis ')'")
 	}
 	tree.charPos += branch.charPos - 1
 	if exec {
